@@ -951,6 +951,18 @@ class BuiltinsMixin:
         if self.binder_depth > 0:
             return [(st, comp)]
         import copy, inspect as _insp
+        first = comp.generators[0].iter
+        if any(isinstance(x, ast.Call) for x in ast.walk(first)) and not getattr(comp, "_first_hoisted", False):
+            # the first iterable of a comprehension is evaluated once, in the enclosing scope
+            res = []
+            for s0, v in self.ev(first, st):
+                tmp = fresh_name("hoisted_iter")
+                s0.env[tmp] = v
+                m = copy.deepcopy(comp)
+                m.generators[0].iter = ast.copy_location(ast.Name(id=tmp, ctx=ast.Load()), first)
+                m._first_hoisted = True
+                res += self.hoist(m, s0)
+            return res
         targets = set()
         for g in comp.generators:
             targets |= {x.id for x in ast.walk(g.target) if isinstance(x, ast.Name)}
@@ -1048,6 +1060,10 @@ class BuiltinsMixin:
             j = inst.bound[0]
             self.axioms.append(z3.Length(r.t) == z3.Length(src.t))
             self.axioms.append(z3.ForAll([j], z3.Implies(inst.guard, r.t[j] == v.t)))
+            from .state import _symbols
+            self.seq_elems(r)                      # index <-> element-set link for the mapped list ...
+            if src.ty.kind == "seq" and not any(n_.startswith("bv") for n_ in _symbols(src.t)):
+                self.seq_elems(src)                # ... and for its source
             return r
         # general case: order/multiplicity abstract, element set exact
         setv = self.comp_set(elt, generators, st)
